@@ -12,6 +12,12 @@ def handle (j : Json) : R (List (String × Json)) := do
   let impl ← fld j "impl"
   let rows ← arrF impl "rows"
   let legs := legCount c
+  -- optional maximize-value layer (a fourth component of quote and fitness)
+  let valsJ := fldD j "values" Json.null
+  let hasVals := !valsJ.isNull
+  let tourVals ← if hasVals then listF asInt valsJ "tour" else pure []
+  let jobVal ← if hasVals then intF valsJ "job" else pure 0
+  let vq (l : List Int) (x : Int) : List Int := if hasVals then l ++ [x] else l
   -- MODEL: quoted cost, and predicted fitness before/after, per position
   let modelRows := (List.range legs).map (fun i =>
     match evalJob c job (.concrete i) with
@@ -19,14 +25,16 @@ def handle (j : Json) : R (List (String × Json)) := do
     | some f =>
       let p := job.places.getD f.place ⟨0, 0, []⟩
       let x : Act := { loc := p.loc, s := f.tw.1, e := f.tw.2, dur := p.dur }
-      Json.mkObj [("cost", jList jInt f.cost), ("place", jNat f.place), ("tw", Json.arr #[jInt f.tw.1, jInt f.tw.2]),
-                  ("before", jList jInt (fitnessOf c c.acts 1)),
-                  ("after", jList jInt (fitnessOf c (insertAt c.acts i x) 0))])
+      Json.mkObj [("cost", jList jInt (vq f.cost (valueQuote jobVal))), ("place", jNat f.place), ("tw", Json.arr #[jInt f.tw.1, jInt f.tw.2]),
+                  ("before", jList jInt (vq (fitnessOf c c.acts 1) (valueFitness tourVals))),
+                  ("after", jList jInt (vq (fitnessOf c (insertAt c.acts i x) 0) (valueFitness (insertAt tourVals i jobVal))))])
   -- ORACLE on the implementation's numbers: realised change == quote, per additive layer
   let mut exactUnassigned := true
   let mut exactTours := true
   let mut exactDistance := true
   let mut exactCostNoWait := true
+  let mut exactValue := true
+  let mut valueRows := 0
   let mut fitnessIsFunctionOfTours := true
   let mut nowaitCases := 0
   for (r, i) in rows.zipIdx do
@@ -43,7 +51,11 @@ def handle (j : Json) : R (List (String × Json)) := do
     let x : Act := { loc := p.loc, s := tw.1, e := tw.2, dur := p.dur }
     let newJobs := insertAt c.acts i x
     -- the reported fitness must be the SPEC value of the tours (ties fitness to the bare tours)
-    if before != fitnessOf c c.acts 1 || after != fitnessOf c newJobs 0 then fitnessIsFunctionOfTours := false
+    if before != vq (fitnessOf c c.acts 1) (valueFitness tourVals) ||
+       after != vq (fitnessOf c newJobs 0) (valueFitness (insertAt tourVals i jobVal)) then fitnessIsFunctionOfTours := false
+    if hasVals then
+      valueRows := valueRows + 1
+      if cost.length != 4 || delta 3 != cost.getD 3 0 then exactValue := false
     match c.obj with
     | .distance => if delta 2 != cost.getD 2 0 then exactDistance := false
     | .cost =>
@@ -53,8 +65,9 @@ def handle (j : Json) : R (List (String × Json)) := do
   return [("model", Json.mkObj [("rows", Json.arr modelRows.toArray)]),
           ("oracle", Json.mkObj [("unassigned_exact", Json.bool exactUnassigned), ("tours_exact", Json.bool exactTours),
                                  ("distance_exact", Json.bool exactDistance), ("cost_exact_without_waiting", Json.bool exactCostNoWait),
+                                 ("value_exact", Json.bool exactValue),
                                  ("fitness_is_function_of_tours", Json.bool fitnessIsFunctionOfTours)]),
-          ("info", Json.mkObj [("nowait_cost_rows", jNat nowaitCases)])]
+          ("info", Json.mkObj [("nowait_cost_rows", jNat nowaitCases), ("value_rows", jNat valueRows)])]
 
 end Drv.C20
 
